@@ -18,6 +18,11 @@ func checkC06(c *Ctx) {
 	r.Rule("R06.3", "layout: timestamp, logger name, severity tag, first line, attributes, caller, remaining lines, in this order; the tag is ShortTag(levelOutputWidth) between brackets; the first line is right-padded to minimalMessageWidth; remaining lines are indented by padFunc(.., \" \", 4, ..) and follow a line break; attributes are sorted (R07.3)")
 	r.Rule("R05.5", "(shared with C05) group members under dotted keys in colored mode too: member keys are DotPrefix(key, enclosing prefix) and the prefix pushed for a value is the dotted key")
 	r.Rule("R05.1", "(shared with C05) groupness is decided per element")
+	r.Rule("R02.2", "(shared with C02) every destination gets the record as formatted: the sink hands its payload itself to one Write")
+	r.Rule("R13.1", "(shared with C13) the fan-out hands each member the whole payload")
+	r.Rule("R13.5", "(shared with C13) the package's writer wrappers forward the payload unchanged, once")
+	r.Rule("R16.2", "(shared with C16) the timestamp column follows the flags in force: the layout is the logger's own, else defaultLayouts[flags & mask] read at print time, else TimeNano")
+	r.Rule("R05.9", "(shared with C05) each key once")
 	r.Rule("R19.1", "(shared with C19) the record is the bytes the encoder appended: the write side of the formatting buffer is isomorphic to bytes.Buffer")
 	r.Rule("R05.3", "(shared with C05) the quoting routine behind every quoted attribute value lets no control byte through: appendQuotedWith appends only the quote, \\xHH of an invalid byte and the output of appendEscapedRune, which copies a rune verbatim only under a printability test")
 	r.Rule("R09.2", "(shared with C09) the layout depends on the configuration in force, not on earlier records: nothing on the print path stores to package-level state (a tag or padding computed for one width is not kept for another)")
@@ -51,6 +56,11 @@ func checkC06(c *Ctx) {
 		c05Keys(c, p, m, mr)
 		c11Transitions(c, p, m)
 		c17Register(c, p, m)
+		c16Timestamp(c, p, m)
+		dedupeEquality(c, p, m, "R05.9")
+		c02Sink(c, p, m)
+		c13Fanout(c, p, m)
+		wrapperForwarding(c, p, "R13.5")
 		tagStoresFromRegistration(c, p)
 		padUnbounded(c, p)
 		noScannerOnPrintPath(c, p, m, "R06.3")
